@@ -28,6 +28,8 @@ class Project(object):
         self._module_cache = {}  # type: dict[str, ImportedModule | SourceModule]
         self._context_cache = {}  # type: dict[str, ImportedModule | SourceModule]
         self._failed_imports = set()  # type: set[str]
+        self._building = []  # type: list[SourceModule]
+        self._cycle_cuts = set()  # type: set[SourceModule]
         self.dyn_modules = set(dyn_modules or [])
 
     def get_path(self):
